@@ -20,7 +20,7 @@ def nontrivial(l):
 
 def run(ctx):
     return core.simple_check(
-        ctx, jobs,
+        ctx, jobs, distribution=core.field_distribution(("D ", "H "), ["kind", "cap", "cols", "pool", "leakexpected"], numeric=()),
         rule="(a) sequential histories on the item vector through the cfg-gated facade: pushes, batches with honest / too large (up to thousands, so that later "
              "buckets are allocated while earlier ones are not) / too small / zero reported lengths, fill callbacks that panic at a chosen item, capacities "
              "0/1/33/1024, 1-3 columns; every item bumps a per-item drop counter, a counting global allocator reports the bytes still live after the vector is "
